@@ -1,0 +1,15 @@
+//go:build verif
+
+// Contracts for the verification machinery in /verif (comment-only; compiled only with -tags verif).
+
+package operationparser
+
+// ---- C05: the same effective window is computed at intake ----
+//
+//@ spec pEffUntil(from int64, until int64, delta uint64) Z { cond(from != 0 && until == 0, from + delta, until) }
+//@ spec pSaneWindow(from int64, until int64, delta uint64) bool {
+//@     0 <= from && from < 4611686018427387904 && 0 <= until && until < 4611686018427387904 && delta < 4611686018427387904 }
+//
+//@ func (*Parser).getAnchorUntil
+//@   requires p != nil && pSaneWindow(from, until, p.MaxOperationTimeDelta)
+//@   ensures  result == pEffUntil(from, until, p.MaxOperationTimeDelta)
